@@ -112,6 +112,9 @@ def axis_of(v, rank):
 
 def reduce_shape(interp, sh, axis, keepdims, st, node):
     if sh is None:
+        # a full reduction is a scalar whatever the (unknown) input shape is
+        if (axis is None or axis.kind == "none") and not (keepdims is not None and keepdims.has_const and keepdims.const):
+            return ()
         return None
     rank = len(sh)
     ax = axis_of(axis, rank)
